@@ -5,6 +5,8 @@ import (
 
 	"github.com/dominant-strategies/go-quai/common"
 	"github.com/dominant-strategies/go-quai/params"
+
+	"verifharness/hlib"
 )
 
 // ---------- CalcOrder / totals inputs ----------
@@ -88,7 +90,10 @@ func genOrderSpec(c *ctxT) HSpec {
 		}
 		return x
 	}
-	switch c.rng.Pick(3, 3, 3, 3, 4, 4) {
+	switch c.rng.Pick(3, 3, 3, 3, 4, 4, 5) {
+	case 6: // small recorded deltas: a strong hash is region-order at most
+		s.PD[1] = randBig(c, 1+c.rng.Intn(60)).String()
+		s.PD[2] = randBig(c, 1+c.rng.Intn(60)).String()
 	case 0: // exactly at the prime delta target (not above)
 		s.PD[1] = "0"
 		s.PD[2] = nonneg(new(big.Int).Sub(tgtP, ie)).String()
@@ -222,6 +227,20 @@ func corpus(c *ctxT) []Case {
 	for n := 0; n <= 33; n++ {
 		out = append(out, Case{ID: c.next(), Kind: "wspost", Z: zs(big.NewInt(int64(n)))})
 	}
+	// a fixed set (own PRNG, independent of the run's seed) of CalcOrder / entropy-sum / memo cases: every order class,
+	// the threshold boundaries, seal error and the two panics are always present
+	saved := c.rng
+	c.rng = hlib.NewRng(20240909).Fork()
+	for i := 0; i < 60; i++ {
+		out = append(out, Case{ID: c.next(), Kind: "order", Z: zs(big.NewInt(int64(genCtx(c)))), H: []HSpec{genOrderSpec(c)}})
+	}
+	for i := 0; i < 25; i++ {
+		out = append(out, genTotals(c))
+	}
+	for i := 0; i < 6; i++ {
+		out = append(out, genCache(c))
+	}
+	c.rng = saved
 	// one complete deviation sweep per parent shape
 	for shape := 0; shape < 5; shape++ {
 		out = append(out, verifyCases(c, shape, -1)...)
